@@ -494,21 +494,40 @@ impl<'a> Interp<'a> {
             }
             "clone" => {
                 let from = c["from"].as_str().unwrap().to_string();
+                let into = c.get("into").and_then(|v| v.as_str()).map(|x| x.to_string());
                 let Some(l) = self.objs.get(&from) else { self.skipped += 1; return; };
                 let Some(obj) = l.obj.as_ref() else { self.skipped += 1; return; };
-                let r = Self::guarded(|| obj.clone_box());
-                let (res, nobj) = match r {
-                    Ok(None) => { self.skipped += 1; return; }
-                    Ok(Some(b)) => ("ok", Some(b)),
-                    Err(()) => ("panic", None),
+                let (res, nobj, how) = match &into {
+                    // Clone::clone_from into an existing, live object of the same type
+                    Some(d) => {
+                        let Some(mut dl) = self.objs.remove(d) else { self.skipped += 1; return; };
+                        let l = self.objs.get(&from).unwrap();
+                        let obj = l.obj.as_ref().unwrap();
+                        let Some(mut dobj) = dl.obj.take() else { self.skipped += 1; return; };
+                        let r = Self::guarded(|| dobj.clone_from_obj(obj.as_ref()));
+                        match r {
+                            Ok(true) => ("ok", Some(dobj), "clone_from"),
+                            Ok(false) => { self.skipped += 1; dl.obj = Some(dobj); self.objs.insert(d.clone(), dl); return; }
+                            Err(()) => ("panic", None, "clone_from"),
+                        }
+                    }
+                    None => {
+                        let r = Self::guarded(|| obj.clone_box());
+                        match r {
+                            Ok(None) => { self.skipped += 1; return; }
+                            Ok(Some(b)) => ("ok", Some(b), "clone"),
+                            Err(()) => ("panic", None, "clone"),
+                        }
+                    }
                 };
+                let l = self.objs.get(&from).unwrap();
                 let src = match c.get("src") {
                     Some(s) => json!({"splice": l.src, "at": l.off, "then": s}),
                     None => l.src.clone(),
                 };
                 let nl = Live { obj: nobj, fac: l.fac, kind: l.kind.clone(), dir: l.dir.clone(), key: l.key.clone(),
                     src, off: l.off, out: l.out.clone(), last_export: l.last_export.clone(), iv: l.iv.clone() };
-                self.events.push(json!({"ev":"clone","o":o,"from":from,"res":res}));
+                self.events.push(json!({"ev":"clone","o":o,"from":from,"res":res,"how":how}));
                 self.objs.insert(o, nl);
             }
             "debug" => {
